@@ -31,6 +31,8 @@ structure St where
   passiveProp : Bool := false         -- stack property PROP_PASSIVE (volatile)
   nextKey : Nat := 1                  -- fresh key material
   nextRid : Nat := 1
+  connectedNow : Bool := false        -- a connection is up (the layer holds the key store)
+  authedNow : Bool := false           -- … and the login on it succeeded
   -- ghost history (what an observer at the server saw)
   offered : List (Nat × Nat) := []    -- every (id, key) that appeared in an upload
   confirmed : List (Nat × Nat) := []  -- every (id, key) of an upload the server confirmed
@@ -90,14 +92,15 @@ def step (p : Params) (s : St) : Ev → St × List Out
   | .connect =>
     let r := levelPrekeys p s false
     let s1 := r.1
-    let s2 := { s1 with unsent := s1.unsent ++ unsentOf s1.db }
+    -- requests of an earlier connection are never answered by the server: modelled as forgotten
+    let s2 := { s1 with unsent := s1.unsent ++ unsentOf s1.db, inflight := [], connectedNow := true, authedNow := false }
     ({ s2 with passiveProp := if s2.unsent.isEmpty then s2.passiveProp else true }, [])
   | .authed passive =>
     if passive && !s.unsent.isEmpty then
       let rid := s.nextRid
       let s1 := flushKeys s (dedupIds s.unsent) true
-      ({ s1 with unsent := [] }, [.upload rid (dedupIds s.unsent)])
-    else (s, [])
+      ({ s1 with unsent := [], authedNow := true }, [.upload rid (dedupIds s.unsent)])
+    else ({ s with authedNow := true }, [])
   | .serverAsksKeys =>
     let r := levelPrekeys p s true
     let rid := r.1.nextRid
@@ -116,9 +119,10 @@ def step (p : Params) (s : St) : Ev → St × List Out
     | none => (s, [])
     | some _ => ({ s with inflight := s.inflight.filter (fun x => x.rid != rid) }, [.raised])
   | .disconnected =>
-    if s.rebootFlag then ({ s with rebootFlag := false, passiveProp := false }, [.reconnect]) else (s, [])
+    let s0 := { s with inflight := [], connectedNow := false, authedNow := false }
+    if s.rebootFlag then ({ s0 with rebootFlag := false, passiveProp := false }, [.reconnect]) else (s0, [])
   | .restart =>
-    ({ s with unsent := [], inflight := [], rebootFlag := false, passiveProp := false }, [])
+    ({ s with unsent := [], inflight := [], rebootFlag := false, passiveProp := false, connectedNow := false, authedNow := false }, [])
   | .consume id =>
     match s.db.find? (fun r => r.id == id) with
     | none => (s, [.invalidKeyId id])
@@ -130,6 +134,22 @@ def run (p : Params) : St → List Ev → St × List Out
     let r := step p s e
     let rest := run p r.1 es
     (rest.1, r.2 ++ rest.2)
+
+/-- What the server and the peers can do: one login per connection, with the passive flag the stack holds;
+    key requests, replies to uploads of this connection and first messages only on an authenticated connection. -/
+def Allowed (s : St) : Ev → Bool
+  | .connect => true
+  | .authed passive => s.connectedNow && !s.authedNow && (passive == s.passiveProp)
+  | .serverAsksKeys => s.authedNow
+  | .uploadResult rid => s.authedNow && s.inflight.any (fun u => u.rid == rid)
+  | .uploadError rid => s.authedNow && s.inflight.any (fun u => u.rid == rid)
+  | .disconnected => true
+  | .restart => true
+  | .consume _ => s.authedNow
+
+def AllowedRun (p : Params) : St → List Ev → Bool
+  | _, [] => true
+  | s, e :: es => Allowed s e && AllowedRun p (step p s e).1 es
 
 /-- `adjustId`: the id as big-endian bytes, at least 3 of them (hex, zero-filled to an even length ≥ 6) -/
 def adjustId (n : Nat) : List Nat :=
